@@ -36,7 +36,7 @@ READY = {
     "OHVerif.Props.C12Subst", "OHVerif.Props.C13Native", "OHVerif.Props.C19Sem", "OHVerif.Props.C14Deriv",
     "OHVerif.Props.C14Poly", "OHVerif.Props.C07UnionFind", "OHVerif.Props.IsoCert",
     "OHVerif.Props.C11Json", "OHVerif.Props.C08Iter", "OHVerif.Props.Comparators",
-    "OHVerif.Props.LaxDenote", "OHVerif.Props.C15Oracle", "OHVerif.Props.Oracles", "OHVerif.Props.C13Oracle", "OHVerif.Props.C16Oracle",
+    "OHVerif.Props.LaxDenote", "OHVerif.Props.C15Oracle", "OHVerif.Props.Oracles", "OHVerif.Props.C13Oracle", "OHVerif.Props.C16Oracle", "OHVerif.Props.LaxDenoteSet",
 }
 
 def _mods(*names):
@@ -55,8 +55,8 @@ PROPS = {
     "C06": dict(modules=_mods("OHVerif.Props.C06"), groups=[("ff", 3000)], deps=[("prim", 500)]),
     "C07": dict(modules=_mods("OHVerif.Props.C07", "OHVerif.Lemmas.VecBackend", "OHVerif.Props.C07UnionFind", "OHVerif.Props.Comparators"), groups=[("prim", 3000)], deps=[], release=True),
     "C08": dict(modules=_mods("OHVerif.Props.C08", "OHVerif.Props.C08Iter"), groups=[("ic", 3000)], deps=[("ff", 500), ("prim", 500)]),
-    "C09": dict(modules=_mods("OHVerif.Props.C09", "OHVerif.Props.Comparators"), groups=[("lax.quot", 3000)], deps=[]),
-    "C10": dict(modules=_mods("OHVerif.Props.C10", "OHVerif.Props.C10Iso", "OHVerif.Props.IsoCert", "OHVerif.Props.Comparators", "OHVerif.Props.LaxDenote"), groups=[("lax.cat", 2500), ("lawlax", 1500)], deps=[("oh", 400)]),
+    "C09": dict(modules=_mods("OHVerif.Props.C09", "OHVerif.Props.Comparators", "OHVerif.Props.LaxDenoteSet"), groups=[("lax.quot", 3000)], deps=[]),
+    "C10": dict(modules=_mods("OHVerif.Props.C10", "OHVerif.Props.C10Iso", "OHVerif.Props.IsoCert", "OHVerif.Props.Comparators", "OHVerif.Props.LaxDenote", "OHVerif.Props.LaxDenoteSet"), groups=[("lax.cat", 2500), ("lawlax", 1500)], deps=[("oh", 400)]),
     "C11": dict(modules=_mods("OHVerif.Props.C11", "OHVerif.Props.C11Json"), groups=[("lax.edit", 3000), ("lax.cat", 1500)], deps=[],
                 missing=["JSON clause: the documented text format is a model function (Json.render) proved lossless and canonical (parse_render, parse_iff); that serde's derives print exactly this text is decided by correspondence (serde_json itself is outside the model) and the Rust round trip is executed on every case"]),
     "C12": dict(modules=_mods("OHVerif.Props.C12", "OHVerif.Props.C12Type", "OHVerif.Props.C12Subst", "OHVerif.Props.IsoCert", "OHVerif.Props.LaxDenote"), groups=[("dynfunctor", 1500), ("functor", 800)], deps=[("oh", 400), ("ff", 300)]),
